@@ -1596,6 +1596,21 @@ fn c14_cands(rng: &mut Rng, pre: &Snap, _t: Tier) -> Vec<Cand> {
     let mut v = Vec::new();
     both(&mut v, SaveCursor);
     both(&mut v, RestoreCursor);
+    // nested saves around a size excursion that returns to EXACTLY the earlier size: save, grow,
+    // move into the new area, save again, back to the old size, restore twice
+    for _ in 0..3 {
+        let (gl, gc) = (rng.range(0, 4), rng.range(0, 4));
+        let mut calls: Vec<Call> = vec![SaveCursor, Resize(Some(l + gl), Some(c + gc))];
+        calls.push(CursorPosition(Some(rng.range(l, l + gl + 1)), Some(rng.range(c, c + gc + 1))));
+        if rng.bool() {
+            calls.push(Draw("w".into()));
+        }
+        calls.push(SaveCursor);
+        calls.push(Resize(Some(l), Some(c)));
+        calls.push(RestoreCursor);
+        calls.push(RestoreCursor);
+        v.push(Cand { ops: calls.into_iter().map(Op::Api).collect() });
+    }
     // "clamped into the current screen and scrolling region": the position is saved at an
     // extreme place (last row / bottom margin, last or pending-wrap column, with DECOM on or
     // off), then region, origin mode, autowrap and size change under the savepoint
